@@ -84,6 +84,13 @@ CHECKS = {
         design_ref="DESIGN.md §4 C05",
         note="Fidelity = ast.dump(include_attributes=True) equality with a fresh ast.parse of the cache key; private attributes rules may attach to nodes are not part of a tree.",
     ),
+    "C06": dict(
+        technique="runtime replay of identical requests under perturbed process state (PYTHONHASHSEED x PYTHONMALLOC x heap junk shifting id()-ordered sets) and perturbed schedules (worker count x shuffled file list x injected per-file delays via a wrapper around format_file in the pool workers); byte comparison with the n_cores=1 run and an independent sequential re-implementation",
+        category="exploration",
+        text="~1000 requests (format_code under 4 option vectors on inputs where several candidates compete inside set-iterating code and on repository examples; findall / search / sub(count=1) with statement-sequence patterns; synthetic colliding insertions through processing.chain) are executed in four process variants and must give identical bytes. Five (14) generated trees of 12-30 files in nested folders (files needing two passes, already clean files, skip_file, invalid files, __init__.py, client files passed as preserved) are formatted with n_cores in {1, 2, 5, 16, ...}, shuffled file lists, seeded 0-150 ms delays, safe on/off, 1 or 5 passes; tree and return value must equal the sequential run and the reference bookkeeping; the evidence reports the distinct completion orders actually produced.",
+        design_ref="DESIGN.md §4 C06",
+        note="Linux fork start method; ASLR adds address variation on top of the explicit variants; a nondeterminism that no variant provokes stays unobserved.",
+    ),
 }
 
 NOT_YET = {}
